@@ -364,8 +364,12 @@ Definition rdepth (r : res) : nat := match r with ROk d => d | RErr e => edepth 
 (* validators do not replace the depth in this run *)
 Definition norepl : Prop := forall id d', orc id <> CbOk (Some d').
 
+(* a value-level failure after d consumed keys, against the traversal outcome: the key that is not
+   found at depth d0 is the d0-th one, so fewer than d0 keys were consumed *)
 Definition le_depth (d : nat) (rt : res) : Prop :=
-  match rt with RErr Unreachable => True | _ => d <= rdepth rt end.
+  match rt with RErr Unreachable => True | RErr (NotFound d0) => d < d0 | _ => d <= rdepth rt end.
+(* traversal outcomes: NotFound carries the (1-based) position of the offending key *)
+Definition okrt (rt : res) : Prop := match rt with RErr (NotFound 0) => False | _ => True end.
 (* R r rt: [r] (a value operation) against [rt] (the traversal of the same key) *)
 Definition R (r rt : res) : Prop :=
   match r with
@@ -377,8 +381,10 @@ Definition R (r rt : res) : Prop :=
   | RErr Unreachable => True
   end.
 
-Lemma le_depth_0 rt : le_depth 0 rt.
-Proof. destruct rt as [d|[]]; simpl; lia || exact I. Qed.
+Lemma le_depth_0 rt : okrt rt -> le_depth 0 rt.
+Proof. destruct rt as [d|[]]; simpl; try lia; try (intros; exact I). destruct d; [intros []|lia]. Qed.
+Lemma okrt_shift rt : okrt (rshift 1 rt).
+Proof. destruct rt as [d|[]]; simpl; exact I. Qed.
 
 Lemma R_shift r rt : R r rt -> R (rshift 1 r) (rshift 1 rt).
 Proof.
@@ -390,37 +396,52 @@ Proof.
   - intros H. destruct rt as [d0|[]]; simpl in *; lia || exact I.
 Qed.
 
-Lemma R_zero_err rt e : edepth e = 0 -> (forall d, e <> TooShort d) -> (forall d, e <> NotFound d) ->
+Lemma R_zero_err rt e : okrt rt -> edepth e = 0 -> (forall d, e <> TooShort d) -> (forall d, e <> NotFound d) ->
   (forall d, e <> TooLong d) -> R (RErr e) rt.
 Proof.
-  intros Hd H1 H2 H3. destruct e; simpl in *; subst; try apply le_depth_0; try exact I.
+  intros Hk Hd H1 H2 H3. destruct e; simpl in *; subst; try (apply le_depth_0; exact Hk); try exact I.
   - exfalso. eapply H1. reflexivity.
   - exfalso. eapply H2. reflexivity.
   - exfalso. eapply H3. reflexivity.
 Qed.
 
-Lemma R_arm o a c (f : value L -> out L) rt : R (fst (fst (f c))) rt -> R (fst (fst (arm orc o a c f))) rt.
+Lemma R_arm o a c (f : value L -> out L) rt : okrt rt -> R (fst (fst (f c))) rt -> R (fst (fst (arm orc o a c f))) rt.
 Proof.
-  intros H. unfold Tree.arm. destruct (a_deny a o); [apply R_zero_err; try discriminate; reflexivity|].
+  intros Hk H. unfold Tree.arm. destruct (a_deny a o); [apply R_zero_err; try discriminate; try reflexivity; exact Hk|].
   destruct (match (if writes o then a_getmut a else a_get a) with
             | Some id => match orc id with CbFail m => Some m | _ => None end | None => None end);
-    [apply R_zero_err; try discriminate; reflexivity|].
+    [apply R_zero_err; try discriminate; try reflexivity; exact Hk|].
   destruct (f c) as [[r c'] lg]. simpl in H.
   destruct o, r as [d|e]; try exact H.
   destruct (a_val a) as [vid|]; [|exact H].
   destruct (orc vid) as [[d'|]|m] eqn:Eo; simpl.
   - destruct H as (d0 & -> & Hd). exists d0. split; [reflexivity|]. intros Hn. exfalso. eapply Hn. exact Eo.
   - exact H.
-  - apply le_depth_0.
+  - apply le_depth_0. exact Hk.
 Qed.
 
-Lemma R_with_child sum v i (f : value L -> out L) rt :
+Lemma R_with_child sum v i (f : value L -> out L) rt : okrt rt ->
   (forall c, R (fst (fst (f c))) rt) -> R (fst (fst (with_child sum v i f))) rt.
 Proof.
-  intros H. unfold with_child. destruct sum, v as [x|s c|vs|act c]; try exact I.
-  - destruct act as [j|]; [|simpl; apply le_depth_0]. destruct (Nat.eqb i j); [|simpl; apply le_depth_0].
+  intros Hk H. unfold with_child. destruct sum, v as [x|s c|vs|act c]; try exact I.
+  - destruct act as [j|]; [|simpl; apply le_depth_0; exact Hk]. destruct (Nat.eqb i j); [|simpl; apply le_depth_0; exact Hk].
     specialize (H c). destruct (f c) as [[r c'] lg]. exact H.
   - destruct (nth_error vs i) as [c|]; [|exact I]. specialize (H c). destruct (f c) as [[r c'] lg]. exact H.
+Qed.
+
+(* the traversal never reports NotFound 0 *)
+Lemma trav_okrt cbf : forall t k pre, okrt (fst (trav cbf t k pre)).
+Proof.
+  induction t as [lk|g t IH|s a t IH|h lk cs IH|n t IH] using node_ind'; intros k pre.
+  - cbn [trav]. destruct (kfin k); exact I.
+  - cbn [trav]. apply IH.
+  - cbn [trav]. apply IH.
+  - cbn [trav]. destruct (knext k lk) as [[i| |] k']; try exact I.
+    destruct (reports h && cbf pre (i, lk_name lk i, lk_len lk)); [exact I|].
+    match goal with |- okrt (fst (tincr ?y)) => destruct y as [rt cs0] end. simpl. apply okrt_shift.
+  - cbn [trav]. destruct (knext k (Homog n)) as [[i| |] k']; try exact I.
+    destruct (cbf pre (i, None, n)); [exact I|].
+    match goal with |- okrt (fst (tincr ?y)) => destruct y as [rt cs0] end. simpl. apply okrt_shift.
 Qed.
 
 Theorem structural_agreement o : forall t v k pre,
@@ -432,22 +453,31 @@ Proof.
     + destruct o; try (destruct (rd x)); try (destruct (wr x)); simpl; try lia; eexists; split; reflexivity || auto.
     + destruct o; try (destruct (rd x)); try (destruct (wr x)); simpl; try lia; eexists; split; reflexivity || auto.
   - cbn [Tree.run trav]. destruct v as [x|s c|vs|act c]; try exact I.
-    destruct (gate_err g o s) as [[|]|]; [simpl; apply le_depth_0|simpl; apply le_depth_0|].
+    pose proof (trav_okrt nofail t k pre) as Hk.
+    destruct (gate_err g o s) as [[|]|]; [simpl; apply le_depth_0; exact Hk|simpl; apply le_depth_0; exact Hk|].
     specialize (IH c k pre). destruct (run o t c k) as [[r c'] lg]. exact IH.
-  - cbn [Tree.run trav]. apply R_with_child. intros c. apply R_arm. apply IH.
+  - cbn [Tree.run trav]. pose proof (trav_okrt nofail t k pre) as Hk.
+    apply R_with_child; [exact Hk|]. intros c. apply R_arm; [exact Hk|]. apply IH.
   - cbn [Tree.run trav]. destruct (knext k lk) as [[i| |] k']; try reflexivity.
     unfold nofail at 1. rewrite andb_false_r.
     set (pre' := if reports h then (i, lk_name lk i, lk_len lk) :: pre else pre).
     assert (G : forall (x : out L) (y : tout), R (fst (fst x)) (fst y) -> R (fst (fst (incr_out x))) (fst (tincr y))).
     { intros [[r v'] lg] [rt cs0] Hx. simpl in *. apply R_shift. exact Hx. }
-    apply G. apply R_with_child. intros c.
-    generalize (N.to_nat i). induction IH as [|[a t'] r Ht _ IHr]; intros j; [exact I|].
-    destruct j as [|j]; [|apply IHr]. apply R_arm. apply Ht.
+    apply G.
+    assert (Hk : forall j, okrt (fst ((fix pick (cs : list (attrs * node)) (j : nat) {struct cs} : tout :=
+               match cs with
+               | [] => (RErr Unreachable, pre')
+               | (_, t') :: r => match j with O => trav nofail t' k' pre' | S j' => pick r j' end
+               end) cs j))).
+    { clear. induction cs as [|[a t'] r IHr]; intros j; [exact I|]. destruct j as [|j]; [apply trav_okrt|apply IHr]. }
+    apply R_with_child; [apply Hk|]. intros c.
+    generalize (N.to_nat i). clear Hk. induction IH as [|[a t'] r Ht _ IHr]; intros j; [exact I|].
+    destruct j as [|j]; [|apply IHr]. apply R_arm; [apply trav_okrt|]. apply Ht.
   - cbn [Tree.run trav]. destruct (knext k (Homog n)) as [[i| |] k']; try reflexivity.
     unfold nofail at 1.
     assert (G : forall (x : out L) (y : tout), R (fst (fst x)) (fst y) -> R (fst (fst (incr_out x))) (fst (tincr y))).
     { intros [[r v'] lg] [rt cs0] Hx. simpl in *. apply R_shift. exact Hx. }
-    apply G. apply R_with_child. intros c. apply IH.
+    apply G. apply R_with_child; [apply trav_okrt|]. intros c. apply IH.
 Qed.
 
 (* the type-level traversal does not depend on the runtime value, and never reports
